@@ -33,6 +33,14 @@ def cases(tier, rng, dist):
             for k in range(0, 9):
                 for alt in ALTS:
                     yield {"f": "binom", "x": x, "n": n, "pa": k, "pb": 8 - k, "alt": alt}
+    # large populations and samples (hundreds to tens of thousands): exact tails by big-integer arithmetic
+    for _ in range(40 if tier == "quick" else 300):
+        N = rng.choice([300, 1000, 5000, 20000, 70001]); n = rng.choice([rng.randint(0, 60), rng.randint(0, min(N, 400))]); G = rng.randint(0, N)
+        lo, hi = max(0, n - (N - G)), min(n, G)
+        x = rng.randint(lo, hi) if rng.random() < 0.9 else rng.randint(0, n + 1)
+        yield {"f": "hyper", "x": x, "N": N, "n": n, "G": G, "alt": rng.choice(ALTS), "big": True}
+        n = rng.choice([300, 1000, 3000]); den = rng.choice([2, 4, 8, 16]); pa = rng.randint(0, den)
+        yield {"f": "binom", "x": rng.choice([rng.randint(0, n), int(n * pa / den) + rng.randint(-3, 3)]) % (n + 1), "n": n, "pa": pa, "pb": den - pa, "alt": rng.choice(ALTS), "big": True}
     for _ in range(300 if tier == "quick" else 3000):
         N = rng.randint(15, 60); n = rng.randint(0, N); G = rng.randint(0, N)
         x = rng.randint(max(0, n - (N - G)), min(n, G)) if rng.random() < 0.9 else rng.randint(0, N)
@@ -91,12 +99,14 @@ def oracle(c, o):
         return {"why": f"admissible arguments {c} raised {r[1]}: {r[2]}", "cls": f"{c['f']}:raises"}
     if o["again"][0] != "ok" or o["again"][1] != r[1]:
         return {"why": f"{c}: a second call with the same argument objects returned {o['again'][:2]}, the first {r[1]}", "cls": f"{c['f']}:wrong-tail:{c['alt']}"}
-    if not math.isfinite(r[1]) or not (abs(Fraction(r[1]) - e) <= Fraction(1, 10**10)):
+    if not math.isfinite(r[1]) or not (abs(Fraction(r[1]) - e) <= Fraction(1, 10**10) + (Fraction(1, 10**9) * e if c.get("big") else 0)):
         return {"why": f"{c}: returned {r[1]}, exact {float(e)}", "cls": f"{c['f']}:wrong-tail:{c['alt']}"}
     return None
 
 
 def to_coq(c, o):
+    if c.get("big"):
+        return None        # (the model's exact tails at this size are evaluated by the oracle in Python only)
     r = o["r"]
     impl = cres(("ok", Fraction(r[1])) if r[0] == "ok" and math.isfinite(r[1]) else ("exc", r[1] if r[0] == "exc" else "Other"), cq)
     if c["f"] == "hyper":
